@@ -19,6 +19,10 @@ BLK = [R + "umem_alloc.c", R + "ubuf_block_mem.c", R + "ubuf_mem_common.c"]
 VS = [E + "vsched.c"]
 HARNESSES = {
     "c07_lin": {"src": [H + "c07_lin.c"] + VS},
+    "c02_cow": {"src": [H + "c02_cow.c", R + "ubuf_block_mem.c", R + "ubuf_mem_common.c", R + "ubuf_mem.c", R + "ubuf_pic_mem.c", R + "ubuf_pic_common.c",
+                        R + "ubuf_pic.c", R + "ubuf_sound_mem.c", R + "ubuf_sound_common.c", R + "uref_pic_flow.c", R + "udict_inline.c",
+                        R + "uref_std.c", R + "umem_alloc.c"]},
+    "c10_udict": {"src": [H + "c10_udict.c", R + "udict_inline.c"]},
     "c08_wakeup": {"src": [H + "c08_wakeup.c", E + "simfd.c"] + VS},
     "c09_refcount": {"src": [H + "c09_refcount.c", R + "ubuf_block_mem.c", R + "ubuf_mem_common.c"] + VS},
     "c03_block": {"src": [H + "c03_block.c"] + BLK},
@@ -176,4 +180,53 @@ CHECKS["C08"] = {
     "bounds": {"quick": "uqueue L=1: 1P+1C x2 elems fine k<=4, 2P+1C fine k<=3 / coarse k<=6, 1P+2C coarse k<=5, 2P+2C coarse k<=4; L=2: 2P+1C x2 coarse k<=4, 2P+2C coarse k<=3, 1P+1C x3 fine k<=3; both consumer styles; udeal 2 contenders x2 rounds k<=7, 3 contenders k<=4, 3x2 rounds k<=3",
                "thorough": "same configurations one or two preemptions deeper, plus L=3 and L=2 at fine granularity"},
     "assumptions": DEFAULT_ASSUME + ["eventfd simulated in harness memory; watchers are level-triggered as with libev"],
+}
+
+def _c10_jobs(tier):
+    q = tier == "quick"
+    dl = 75 if q else 840
+    jobs = []
+    for (mn, ex, pool) in ((1, 1, 0), (8, 4, 2), (-1, -1, 0)):
+        jobs.append(("c10_udict", ["--min", mn, "--extra", ex, "--pool", pool, "--keys", 10, "--depth", 4 if q else 5, "--deadline", dl]))
+        jobs.append(("c10_udict", ["--min", mn, "--extra", ex, "--pool", pool, "--keys", 20, "--depth", 3 if q else 4, "--deadline", dl]))
+        jobs.append(("c10_udict", ["--min", mn, "--extra", ex, "--pool", pool, "--keys", 6, "--depth", 5 if q else 7, "--deadline", dl]))
+    jobs.append(("c10_udict", ["--min", 1, "--extra", 1, "--pool", 0, "--keys", 6, "--big", 1, "--depth", 3 if q else 4, "--deadline", dl]))
+    return jobs
+
+CHECKS["C10"] = {
+    "engine": "seqx", "design_ref": "DESIGN.md section 3 C10",
+    "technique": "explicit-state BFS over set/delete/dup/copy/import/aliasing-set sequences on two real udict_inline dictionaries vs an ordered-map model",
+    "level_text": "All operation sequences up to the stated depth over keys chosen to collide (same name/other type, prefixes, shorthand vs named, every attribute type) and boundary values (sizes 0/1/5/40/65000, 64-bit extremes), on 3 manager configurations that force storage growth; after every transition all keys are looked up with the typed getters in both dictionaries, iteration must visit each present attribute exactly once, udict_cmp must agree with the models, and the counting allocator must see no overrun. Bounded, not a proof.",
+    "level_note": "Trusted: the map model and value generators. Outside: sequences beyond the depth, names other than a/ab/abc/b, values other than the boundary sets, INT64_MIN (documented assert).",
+    "jobs": {"quick": _c10_jobs("quick"), "thorough": _c10_jobs("thorough")},
+    "rule": "BFS, key = iteration order of both dictionaries with values (TLV order is hidden state) + allocation sizes; non-trivial = states with >= 2 attributes or a second dictionary",
+    "bounds": {"quick": "10 keys depth 4, 20 keys depth 3, 6 keys depth 5, x3 manager configs (min,extra,pool) in {(1,1,0),(8,4,2),default}; 65000-octet values depth 3",
+               "thorough": "10 keys depth 5, 20 keys depth 4, 6 keys depth 7; 65000-octet values depth 4"},
+    "assumptions": DEFAULT_ASSUME,
+}
+
+def _c02_jobs(tier):
+    q = tier == "quick"
+    dl = 75 if q else 840
+    jobs = []
+    # start states (op indices of c02_cow's alphabet): empty; alloc3+dup; alloc2+alloc3; picture+block-from-picture; sound+block-from-sound
+    starts = [("", 5), ("1,2", 4), ("0,1", 4), ("20,25", 4), ("21,29", 4), ("1,2,20,22", 4), ("0,1,46,96", 4)]
+    for (pp, ap, al, pool) in ((0, 0, 0, 0), (4, 0, 0, 2), (2, 1, 4, 2)):
+        for (pre, d) in starts:
+            a = ["--prepend", pp, "--append", ap, "--align", al, "--pool", pool, "--depth", d if q else d + 1, "--deadline", dl]
+            if pre:
+                a += ["--prefix", pre]
+            jobs.append(("c02_cow", a))
+    return jobs
+
+CHECKS["C02"] = {
+    "engine": "seqx", "design_ref": "DESIGN.md section 3 C02",
+    "technique": "explicit-state BFS over dup/splice/split/insert/append/delete/resize/merge/write-mapping/free sequences on families of real block, picture and sound buffers sharing memory, vs per-handle byte models and an independent owner count",
+    "level_text": "All operation sequences up to the stated depth over <=3 block handles, a 4x2 picture and a 4-sample sound (with duplicates and block re-exports of their planes), 3 manager configurations; after every transition every live handle is compared with its model copy, every granted writable mapping is checked against an owner count obtained by walking all live handles, and all live memory areas of the counting allocator are compared before/after every non-write operation. Bounded, not a proof.",
+    "level_note": "Trusted: byte models, direct walk of public struct ubuf_block fields, counting allocator. Outside: more than 3 block handles / 7 segments, deeper sequences, multi-plane pictures.",
+    "jobs": {"quick": _c02_jobs("quick"), "thorough": _c02_jobs("thorough")},
+    "rule": "BFS, key = per handle segments (area index, offset, size) + caches + content, picture/sound sharing; non-trivial = states in which some memory area is referenced by >= 2 segments/handles",
+    "bounds": {"quick": "depth 5 from the empty state and depth 4 from each of 5 further start states (block+dup; two blocks; picture+block view; sound+block view; block+dup+picture+dup; segmented block with its offset cache on the 2nd segment), 3 manager configs (prepend,append,align,pool) in {(0,0,0,0),(4,0,0,2),(2,1,4,2)}",
+               "thorough": "one level deeper from every start state"},
+    "assumptions": DEFAULT_ASSUME,
 }
